@@ -312,6 +312,10 @@ func (s *Server) blobUploadPost(repoStr string) http.HandlerFunc {
 					// the request body could not be read
 					w.WriteHeader(http.StatusBadRequest)
 					_ = types.ErrRespJSON(w, types.ErrInfoBlobUploadInvalid("failed to read request body"))
+				} else if errors.Is(err, types.ErrNotFound) {
+					// the session of the upload was evicted or expired while the content was received
+					w.WriteHeader(http.StatusBadRequest)
+					_ = types.ErrRespJSON(w, types.ErrInfoBlobUploadUnknown("upload session not found"))
 				} else {
 					w.WriteHeader(http.StatusInternalServerError)
 				}
@@ -330,7 +334,13 @@ func (s *Server) blobUploadPost(repoStr string) http.HandlerFunc {
 			if err != nil {
 				// the client was not given the session, it cannot be resumed
 				_ = bc.Cancel()
-				w.WriteHeader(http.StatusInternalServerError)
+				if errors.Is(err, types.ErrNotFound) {
+					// the session of the upload was evicted or expired while the content was received
+					w.WriteHeader(http.StatusBadRequest)
+					_ = types.ErrRespJSON(w, types.ErrInfoBlobUploadUnknown("upload session not found"))
+				} else {
+					w.WriteHeader(http.StatusInternalServerError)
+				}
 				s.log.Info("failed to close blob", "repo", repoStr, "err", err)
 				return
 			}
